@@ -269,8 +269,8 @@ class Truth:
 
 
 def branch_live(net, tab, idx, side):
-    """the PF reports a finite flow for this branch terminal"""
-    return not math.isnan(_f(net["res_" + tab].at[idx, "p_%s_mw" % side]))
+    """the branch terminal is part of the solved network: the PF reports a finite current (dead branches: p = q = 0, i = NaN)"""
+    return not math.isnan(_f(net["res_" + tab].at[idx, "i_%s_ka" % side]))
 
 
 # ---------------------------------------------------------------------------------------------------------
@@ -563,6 +563,7 @@ def check(case):
                 d = _nz(net.trafo.at[idx, "tap_step_degree"]) * (_nz(net.trafo.at[idx, "tap_pos"]) - _nz(net.trafo.at[idx, "tap_neutral"]))
                 if abs(d) > 20.0:
                     no_dc_init = True
+    zbase = max(float(net.bus.vn_kv.at[b]) ** 2 for b in T.buses) / sn
     if sab and has_branch_rows:
         fsig = "side-as-bus"
     elif t3_out_measured:
@@ -571,8 +572,10 @@ def check(case):
         fsig = "zero-constraint-sn!=1"
     elif no_dc_init:
         fsig = "phase-shift-no-dc-init"
-    elif alg in ("irwls", "wls_with_zero_constraint") and T.n_aux > 0:
-        fsig = "no-sigma-clamp+aux-bus"
+    elif T.n_aux > 0 and (alg in ("irwls", "wls_with_zero_constraint") or zbase >= 1e4):
+        # virtual zero-injection measurements of auxiliary buses: sigma = 1e-6 p.u. hard coded (wls clamps it to 1e-5): the gain
+        # matrix becomes numerically singular when the p.u. admittances are large (z_base = vn^2 / sn_mva >= 10 kOhm for wls)
+        fsig = "aux-bus-virtual-sigma"
     elif init == "flat" and has_i:
         fsig = "flat+i-meas"
     else:
